@@ -237,7 +237,19 @@ pub fn timeline(b: u64, servers: usize, hours: u64, churn: u64, seed: u64, out: 
                         }
                     }
                 }
-                tables.push(json!([n, ps, s.routing_table.size, stale_or_unknown]));
+                // the two tables separately (members that map to a node as it is now), and the node's own id (a re-key re-buckets)
+                let members = |t: &dht::verif::TableSnap| -> Vec<i64> {
+                    let mut v: Vec<i64> = vec![];
+                    for x in t.nodes.iter() {
+                        if let Some(&p) = id_of.get(&x.id) {
+                            if net.sim.nodes[p].addr.to_string() == x.addr && !v.contains(&(p as i64)) {
+                                v.push(p as i64);
+                            }
+                        }
+                    }
+                    v
+                };
+                tables.push(json!([n, ps, s.routing_table.size, stale_or_unknown, members(&s.routing_table), members(&s.signed_peers_routing_table), s.id]));
             }
         }
         for (k2, t) in answers.iter() {
@@ -299,6 +311,81 @@ fn addr_inc_at(net: &Net, addr: &SocketAddrV4, _t: u64) -> Option<usize> {
     best
 }
 
+/// A server whose far bucket is FULL in the main table: 25 peers, all at distance 160 from it, all answering everything. The
+/// first 20 do not support signed announcements (no version in their messages): they fill the main table's bucket and stay out
+/// of the signed-peers table. The last 5 do: the main table has no room for them, the signed-peers table takes them. For an
+/// hour, at every 5-minute boundary: who is in which table, who has answered within the last 15 minutes.
+pub fn fullbucket(b: u64, seed: u64, out: &mut Out) -> u64 {
+    use crate::bencode::B;
+    use crate::fakenet::*;
+    use crate::krpc;
+    let mut sim = Sim::new(seed ^ 0xF0B0, NetCfg { lat_min_ms: 2, lat_max_ms: 6, cadence_ms: 1000, ..Default::default() });
+    sim.record = true;
+    let mut rng = Rng::new(seed ^ b ^ 0xFB);
+    let n = 25usize;
+    let boot: Vec<String> = (0..n).map(|i| format!("{}:6881", fake_ip(i))).collect();
+    let c = sim.add_node(NodeOpts::server(private_ip(7), &boot));
+    let own = sim.snapshot(c).map(|s| crate::bencode::unhex(&s.id)).unwrap_or_default();
+    let ids: Vec<[u8; 20]> = (0..n)
+        .map(|_| {
+            let mut id = rng.id();
+            id[0] = (id[0] & 0x7f) | (!own[0] & 0x80);
+            id
+        })
+        .collect();
+    let all: Vec<([u8; 20], SocketAddrV4)> = ids.iter().enumerate().map(|(i, id)| (*id, SocketAddrV4::new(fake_ip(i), 6881))).collect();
+    let nodes = krpc::compact_nodes(&all);
+    let policy: Policy = Box::new(move |me, m, w| {
+        let q = m.q.clone().unwrap_or_default();
+        let mut r = B::dict();
+        if q != "ping" {
+            r.set("nodes", B::bytes(&nodes));
+            if q != "find_node" {
+                r.set("token", B::bytes(me.token()));
+            }
+        }
+        let mut msg = krpc::response(&m.tid, &me.id, r, Some(&w.from));
+        if me.idx < 20 {
+            msg.remove("v");
+        }
+        Reply::One(msg, 1)
+    });
+    let _net = FakeNet::install(&mut sim, &ids, policy);
+    let caddr = sim.nodes[c].addr;
+    let start = sim.now_ns();
+    let peer_of: HashMap<String, usize> = all.iter().enumerate().map(|(i, (_, a))| (a.to_string(), i)).collect();
+    let mut last_ans: HashMap<usize, u64> = HashMap::new();
+    let mut log_pos = 0;
+    let mut lines = 0;
+    for _k in 0..12 {
+        sim.run_for(300_000);
+        while log_pos < sim.log.len() {
+            let r = &sim.log[log_pos];
+            if r.to == caddr && !r.delivered_ns.is_empty() {
+                if let (Some(&p), Some(m)) = (peer_of.get(&r.from.to_string()), r.msg.as_ref()) {
+                    if !m.is_request() {
+                        let e = last_ans.entry(p).or_insert(0);
+                        *e = (*e).max(r.delivered_ns[0]);
+                    }
+                }
+            }
+            log_pos += 1;
+        }
+        let now = sim.now_ns();
+        let snap = match sim.snapshot(c) {
+            Some(s) => s,
+            None => break,
+        };
+        let members = |t: &dht::verif::TableSnap| -> Vec<usize> { t.nodes.iter().filter_map(|x| peer_of.get(&x.addr).cloned()).collect() };
+        let answered: Vec<usize> = last_ans.iter().filter(|(_, t)| now - **t <= 15 * 60_000 * MS).map(|(p, _)| *p).collect();
+        out.line(&json!({"e":"tablewatch","b":b,"t":(now - start) / MS,"main":members(&snap.routing_table),"signed":members(&snap.signed_peers_routing_table),
+            "answered":answered,"capable":(20..n).collect::<Vec<usize>>(),"bucket_capacity":20,"id":snap.id,"panicked":sim.nodes[c].panicked}));
+        lines += 1;
+    }
+    sim.shutdown();
+    lines
+}
+
 pub fn run(args: &Args) -> i32 {
     let seed = args.u64("seed", 1);
     let thorough = args.thorough();
@@ -330,6 +417,14 @@ pub fn run(args: &Args) -> i32 {
     for (servers, hours, churn) in busies {
         if only.is_none() || only == Some(b) {
             lines += timeline(b, servers, hours, churn, seed ^ (b * 104729), &mut out, "busy");
+        }
+        b += 1;
+    }
+    // a full bucket in the main table, signed-capable peers beside it
+    for i in 0..(if thorough { 6 } else { 1 }) {
+        if only.is_none() || only == Some(b) {
+            out.line(&json!({"e":"reset","b":b,"first":-1,"servers":1}));
+            lines += 1 + fullbucket(b, seed ^ (i * 7919 + 3), &mut out);
         }
         b += 1;
     }
